@@ -21,7 +21,7 @@ RULE = ('(seventh alphabet: the facts enumerated through yp.match_dynamic, the A
         'retract(p(a)) once(retract(p(X))) \\+retract(p(X)) fail} compiled and run from each initial store under a deterministic step budget (termination), '
         'answers and final store compared with RefProlog; plus the classic drain and counter-update loops. '
         '[thorough: (c) explicit-state search over the model, one representative history per distinct model state, to '
-        'depth 9.] states = distinct canonical model states (store + suspended enumerations); transitions = events '
+        'depth 7 on five stores.] states = distinct canonical model states (store + suspended enumerations); transitions = events '
         'executed on the real engine; non-trivial = a modification happened while an enumeration was suspended')
 ASSUMPTIONS = ['an enumeration "starts" when its first answer is requested (creating a generator object without '
                'advancing it is not an observable start)',
@@ -66,7 +66,7 @@ BIG_STORE = 7
 
 def bounds(tier):
     return {'history_depth': 5 if tier == 'quick' else '6 on the stores [a,b] and [a,b,a]; 5 on the other stores and alphabets', 'body_goals': 3 if tier == 'quick' else 4,
-            'state_search_depth': 0 if tier == 'quick' else 9}
+            'state_search_depth': 0 if tier == 'quick' else 7}
 
 
 class Run:
@@ -280,7 +280,7 @@ def plan(tier):
     sh += [('b', g, k, 32) for k in range(32)]
     sh += [('c',)]
     if tier != 'quick':
-        sh += [('s', 9, ii) for ii in range(BIG_STORE)]
+        sh += [('s', 7, ii) for ii in range(5)]
     return sh
 
 
